@@ -160,6 +160,9 @@ def main(argv):
     if prop == 'C12':
         from . import c12
         return c12.main(tier(), seed())
+    if prop == 'C19':
+        from . import c19
+        return c19.main(tier(), seed())
     if prop == 'C13':
         from . import c13
         return c13.main(tier(), seed())
